@@ -1207,7 +1207,10 @@ def _read_bipartite_kthlist(inputfile):
     """
     # vertex number
     parser = _kthlist_parse(inputfile)
-    size, name = next(parser)
+    try:
+        size, name = next(parser)
+    except StopIteration:
+        raise ValueError("The file does not specify the number of vertices.")
     bipartition_ambiguous = [1, size]
     edges = {}
 
@@ -1278,7 +1281,10 @@ def _read_nonbipartite_kthlist(inputfile, graph_class):
 
     # vertex number
     parser = _kthlist_parse(inputfile)
-    size, name = next(parser)
+    try:
+        size, name = next(parser)
+    except StopIteration:
+        raise ValueError("The file does not specify the number of vertices.")
     G = graph_class(size, name)
 
     previous = 0
